@@ -21,7 +21,13 @@ NOT_APPLICABLE = {
 }
 
 # property id -> dict(engine, level, text, note, technique, design_ref); filled in as checks are built
-CHECKS = {}
+CHECKS = {
+    'C16': dict(
+        engine='procsim', level='exploration', design_ref='DESIGN.md 5',
+        technique='deterministic simulation with fault injection: seeded baton scheduler over real forked worker processes, kill/raise/fork/alloc faults, happens-before race detection, serial-equivalence oracle',
+        text='Seeded search over schedules and fault sequences of the real parallel code (nutils.parallel, generated scripts, Topology._locate) running in real forked processes whose interleaving is decided by the simulator at lock/counter/line granularity. Checks exactly-once iteration claims, mutual exclusion of shared writes (vector-clock happens-before over the recorded history), equality with the serial run, raise-instead-of-partial-result after any injected fault and bounded liveness. Sampled: a clean batch is evidence, not proof.',
+        note='Trusts kernel fork/mmap/pipe/SIGKILL semantics and the fidelity of the lock stub to a POSIX semaphore; no CPU-level or bytecode-level pre-emption (races are detected by happens-before, not by manifestation); one known finding (kill while holding a lock deadlocks) is listed in known_findings.json.'),
+}
 PLANNED = ('C03', 'C14', 'C16', 'C17', 'C18')
 
 
